@@ -774,8 +774,10 @@ def m_cholesky(t, it, ctx, a, k):
 
 def m_root_decomposition(t, it, ctx, a, k):
     """RootLinearOperator R R^T = A with an exact root (the Cholesky factor is one)"""
+    given = t.meta.get("given_root")
     A = t.frozen()
-    L = m_cholesky(A, it, ctx, [], {})
+    # a covariance *represented* by a root R (RootLinearOperator(R)) hands out that root, which need not be triangular: only R R^T = A is known
+    L = given if given is not None else m_cholesky(A, it, ctx, [], {})
     r = A.copy(is_linop=True, linop_class="RootLinearOperator")
     r.meta["root"] = L
     return r
